@@ -496,26 +496,232 @@ fn fam_init_input(ctx: &mut Context, rng: &mut Rng) -> TransitionSystem {
             ctx.add(i, one)
         }
     };
-    let next = match rng.below(3) {
-        0 => s,
-        1 => {
-            let one = lit(ctx, w, 1);
-            ctx.add(s, one)
+    match rng.below(5) {
+        0 | 1 => {
+            // (mostly unsafe) the relation between s and the input only holds at step 0
+            let next = match rng.below(3) {
+                0 => s,
+                1 => {
+                    let one = lit(ctx, w, 1);
+                    ctx.add(s, one)
+                }
+                _ => ctx.xor(s, i),
+            };
+            add_state(ctx, &mut sys, s, Some(init), Some(next));
+            let bad = match rng.below(3) {
+                0 => ctx.distinct(s, i),
+                1 => ctx.equal(s, i),
+                _ => {
+                    let t = lit(ctx, w, rng.below(1u64 << w));
+                    let a = ctx.equal(s, t);
+                    let b = ctx.distinct(i, t);
+                    ctx.and(a, b)
+                }
+            };
+            sys.bad_states.push(bad);
         }
-        _ => ctx.xor(s, i),
-    };
-    add_state(ctx, &mut sys, s, Some(init), Some(next));
-    let bad = match rng.below(3) {
-        0 => ctx.distinct(s, i),
-        1 => ctx.equal(s, i),
+        2 | 3 => {
+            // (safe) a first-step flag guards the bad state: bad needs the flag AND a value of the input
+            // that differs from the one the init expression used - impossible at step 0, and the flag is
+            // gone afterwards.  Projected onto the states, every (f=1, s) is initial and bad.
+            let f = ctx.bv_symbol("f", 1);
+            let one1 = lit(ctx, 1, 1);
+            let zero1 = lit(ctx, 1, 0);
+            let next_s = if rng.chance(1, 2) { s } else { ctx.xor(s, i) };
+            add_state(ctx, &mut sys, s, Some(init), Some(next_s));
+            add_state(ctx, &mut sys, f, Some(one1), Some(zero1));
+            let rel_broken = ctx.distinct(s, init);
+            let bad = ctx.and(f, rel_broken);
+            sys.bad_states.push(bad);
+            if rng.chance(1, 3) {
+                // and an ordinary reachable-or-not second bad state
+                let t = lit(ctx, w, rng.below(1u64 << w));
+                let e = ctx.equal(s, t);
+                let nf = ctx.not(f);
+                let b2 = ctx.and(e, nf);
+                let b2 = if rng.chance(1, 2) { ctx.and(b2, f) } else { b2 };
+                sys.bad_states.push(b2);
+            }
+        }
         _ => {
-            let t = lit(ctx, w, rng.below(1u64 << w));
-            let a = ctx.equal(s, t);
-            let b = ctx.distinct(i, t);
-            ctx.and(a, b)
+            // (safe) two states initialised from the same input stay equal
+            let t = ctx.bv_symbol("t", w);
+            let (ns, nt) = if rng.chance(1, 2) {
+                (s, t)
+            } else {
+                let one = lit(ctx, w, 1);
+                let a = ctx.add(s, one);
+                let b = ctx.add(t, one);
+                (a, b)
+            };
+            add_state(ctx, &mut sys, s, Some(init), Some(ns));
+            add_state(ctx, &mut sys, t, Some(init), Some(nt));
+            let bad = ctx.distinct(s, t);
+            sys.bad_states.push(bad);
+        }
+    }
+    sys
+}
+
+/// the only reachable bad states are dead ends under the constraints: a counter with a forbidden
+/// value t (constraint c != t); bad just before t (reachable, but its only successor violates the
+/// constraint), or beyond t (unreachable: executions cannot pass t)
+fn fam_deadend(ctx: &mut Context, rng: &mut Rng) -> TransitionSystem {
+    let mut sys = TransitionSystem::new("deadend".to_string());
+    let w = rng.range(2, 4) as WidthInt;
+    let max = (1u64 << w) - 1;
+    let c = ctx.bv_symbol("cnt", w);
+    let one = lit(ctx, w, 1);
+    let inc = ctx.add(c, one);
+    let next = if rng.chance(1, 3) {
+        let en = ctx.bv_symbol("en", 1);
+        sys.add_input(ctx, en);
+        ctx.ite(en, inc, c)
+    } else {
+        inc
+    };
+    let z = lit(ctx, w, 0);
+    add_state(ctx, &mut sys, c, Some(z), Some(next));
+    let t = rng.range(2, max);
+    let tl = lit(ctx, w, t);
+    let cons = ctx.distinct(c, tl);
+    sys.constraints.push(cons);
+    let b = match rng.below(6) {
+        0..=3 => t - 1,                  // dead-end bad state
+        4 => (t + 1) & max,              // behind the forbidden value (or wrapped to 0)
+        _ => rng.range(0, max),
+    };
+    let bl = lit(ctx, w, b);
+    let bad = ctx.equal(c, bl);
+    sys.bad_states.push(bad);
+    if rng.chance(1, 3) {
+        // a second bad state that is the forbidden value itself: never bad in an execution
+        let bad2 = ctx.equal(c, tl);
+        sys.bad_states.push(bad2);
+    }
+    sys
+}
+
+/// relational init: a state without init and a state whose init reads it
+fn fam_relinit(ctx: &mut Context, rng: &mut Rng) -> TransitionSystem {
+    let mut sys = TransitionSystem::new("relinit".to_string());
+    let w = rng.range(1, 2) as WidthInt;
+    let max = (1u64 << w) - 1;
+    let b = ctx.bv_symbol("b", w);
+    let a = ctx.bv_symbol("a", w);
+    let k = if rng.chance(1, 2) { 0 } else { rng.range(1, max) };
+    let kl = lit(ctx, w, k);
+    // mostly the plain symbol: a compound init expression over a state is the recorded C04 finding
+    // use-before-declare:init-signal-reads-state in the BMC encoding (inherited through the fallback)
+    let init_a = match rng.below(6) {
+        0 => ctx.add(b, kl),
+        1 => ctx.not(b),
+        _ => b,
+    };
+    let one = lit(ctx, w, 1);
+    let (na, nb) = match rng.below(4) {
+        0 => (a, b),
+        1 => {
+            let en = ctx.bv_symbol("en", 1);
+            sys.add_input(ctx, en);
+            let ia = ctx.add(a, one);
+            let ib = ctx.add(b, one);
+            let na = ctx.ite(en, ia, a);
+            let nb = ctx.ite(en, ib, b);
+            (na, nb)
+        }
+        2 => (b, a),
+        _ => {
+            let ia = ctx.add(a, one);
+            (ia, b)
+        }
+    };
+    // the state without init comes first (the BMC encoding defines init values in state order)
+    add_state(ctx, &mut sys, b, None, Some(nb));
+    add_state(ctx, &mut sys, a, Some(init_a), Some(na));
+    if rng.chance(1, 3) {
+        // a third, ordinary state so that cubes have literals to drop
+        let f = ctx.bv_symbol("f", 1);
+        let z = lit(ctx, 1, 0);
+        let hit = ctx.equal(a, b);
+        let nf = ctx.or(f, hit);
+        add_state(ctx, &mut sys, f, Some(z), Some(nf));
+    }
+    let bad = match rng.below(4) {
+        0 => ctx.distinct(a, b),
+        1 => {
+            let s = ctx.add(b, kl);
+            ctx.distinct(a, s)
+        }
+        2 => {
+            let t1 = lit(ctx, w, rng.range(0, max));
+            let t2 = lit(ctx, w, rng.range(0, max));
+            let ea = ctx.equal(a, t1);
+            let eb = ctx.equal(b, t2);
+            ctx.and(ea, eb)
+        }
+        _ => {
+            let nb_ = ctx.not(b);
+            ctx.distinct(a, nb_)
         }
     };
     sys.bad_states.push(bad);
+    sys
+}
+
+/// a bad-state expression that reads an input which the constraints restrict: the shallow
+/// "counterexample" needs a forbidden input value, the real one is deeper (or does not exist)
+fn fam_consbad(ctx: &mut Context, rng: &mut Rng) -> TransitionSystem {
+    let mut sys = TransitionSystem::new("consbad".to_string());
+    let w = rng.range(2, 3) as WidthInt;
+    let max = (1u64 << w) - 1;
+    let x = ctx.bv_symbol("x", 1);
+    sys.add_input(ctx, x);
+    let c = ctx.bv_symbol("cnt", w);
+    let one = lit(ctx, w, 1);
+    let inc = ctx.add(c, one);
+    let next = match rng.below(3) {
+        0 => inc,
+        1 => {
+            let en = ctx.bv_symbol("en", 1);
+            sys.add_input(ctx, en);
+            ctx.ite(en, inc, c)
+        }
+        _ => {
+            // wrap before the deep bad value: the system is safe
+            let m = lit(ctx, w, rng.range(1, max - 1));
+            let at = ctx.equal(c, m);
+            let z = lit(ctx, w, 0);
+            ctx.ite(at, z, inc)
+        }
+    };
+    let z = lit(ctx, w, 0);
+    add_state(ctx, &mut sys, c, Some(z), Some(next));
+    let nx = ctx.not(x);
+    let cons = match rng.below(3) {
+        0 | 1 => nx,
+        _ => {
+            // x only allowed at one particular count
+            let t0 = lit(ctx, w, rng.range(0, max));
+            let at = ctx.equal(c, t0);
+            ctx.implies(x, at)
+        }
+    };
+    sys.constraints.push(cons);
+    let t1 = rng.range(0, max - 1);
+    let t2 = rng.range(t1 + 1, max);
+    let l1 = lit(ctx, w, t1);
+    let l2 = lit(ctx, w, t2);
+    let e1 = ctx.equal(c, l1);
+    let shallow = ctx.and(e1, x);
+    let deep = ctx.equal(c, l2);
+    if rng.chance(1, 2) {
+        let bad = ctx.or(shallow, deep);
+        sys.bad_states.push(bad);
+    } else {
+        sys.bad_states.push(shallow);
+        sys.bad_states.push(deep);
+    }
     sys
 }
 
@@ -532,6 +738,9 @@ fn gen_family(ctx: &mut Context, rng: &mut Rng, fam: &str) -> TransitionSystem {
         "conststate" => fam_random(ctx, rng, 3),
         "initstate" => fam_random(ctx, rng, 4),
         "initinput" => fam_init_input(ctx, rng),
+        "deadend" => fam_deadend(ctx, rng),
+        "relinit" => fam_relinit(ctx, rng),
+        "consbad" => fam_consbad(ctx, rng),
         other => panic!("unknown family {other}"),
     }
 }
@@ -548,6 +757,9 @@ const FAMILIES: &[(&str, u64)] = &[
     ("conststate", 3),
     ("initstate", 2),
     ("initinput", 4),
+    ("deadend", 7),
+    ("relinit", 8),
+    ("consbad", 7),
 ];
 
 fn pick_family(rng: &mut Rng) -> &'static str {
@@ -1209,7 +1421,8 @@ fn worker(args: &Args) {
             (format!("(fail {})", dump_witness(&wit)), sim)
         }
     };
-    let script = script_stats(&script_path);
+    let bases: HashSet<String> = sys.states.iter().map(|s| s.symbol).chain(sys.inputs.iter().copied()).filter_map(|e| ctx.get_symbol_name(e).map(|n| n.to_string())).collect();
+    let script = script_stats(&script_path, &bases);
     let _ = std::fs::remove_file(&script_path);
     println!("(impl {impl_s}) (sim {sim_s}) (script {script})");
 }
@@ -1336,7 +1549,7 @@ fn replay_witness(ctx: &Context, sys: &TransitionSystem, wit: &Witness) -> Strin
 
 /// statistics of the recorded SMT conversation; a symbol declared/defined twice inside one
 /// solver session is the C04 encoding defect (duplicate definition)
-fn script_stats(path: &str) -> String {
+fn script_stats(path: &str, bases: &HashSet<String>) -> String {
     let Ok(text) = std::fs::read_to_string(path) else {
         return "none".into();
     };
@@ -1344,6 +1557,9 @@ fn script_stats(path: &str) -> String {
     let mut sessions = 1u64;
     let mut names: HashSet<String> = HashSet::new();
     let mut dup: Option<String> = None;
+    // a stepped symbol (name@k) that a command mentions before the session declared/defined it: the
+    // C04 encoding finding "use-before-declare" (the solver then answers (error "unknown constant ..."))
+    let mut use_before: Option<String> = None;
     let mut h: u64 = 0xcbf29ce484222325;
     for line in text.lines() {
         for b in line.bytes() {
@@ -1362,17 +1578,43 @@ fn script_stats(path: &str) -> String {
             } else {
                 rest.split(' ').next().unwrap_or("").to_string()
             };
+            if line.starts_with("(define-fun ") && use_before.is_none() {
+                use_before = first_undeclared(rest.splitn(2, ' ').nth(1).unwrap_or(""), &names, bases);
+            }
             if !names.insert(name.clone()) && dup.is_none() {
                 dup = Some(name);
             }
+        } else if (line.starts_with("(assert ") || line.starts_with("(check-sat-assuming ")) && use_before.is_none() {
+            use_before = first_undeclared(line, &names, bases);
         }
     }
     format!(
-        "(queries {queries}) (sessions {sessions}) (dupdef {}) (hash {:016x})",
+        "(queries {queries}) (sessions {sessions}) (dupdef {}) (usebefore {}) (hash {:016x})",
         match dup {
+            Some(n) => quote(&n),
+            None => "none".to_string(),
+        },
+        match use_before {
             Some(n) => quote(&n),
             None => "none".to_string(),
         },
         h
     )
+}
+
+/// the first token of the form name@step in `text` that is not in `declared`
+fn first_undeclared(text: &str, declared: &HashSet<String>, bases: &HashSet<String>) -> Option<String> {
+    for tok in text.split(|c: char| c.is_whitespace() || c == '(' || c == ')') {
+        let t = tok.trim_matches('|');
+        // a constant state keeps its unstepped name in the encoding
+        if bases.contains(t) && !declared.contains(t) {
+            return Some(t.to_string());
+        }
+        if let Some((base, step)) = t.rsplit_once('@') {
+            if !base.is_empty() && !step.is_empty() && step.chars().all(|c| c.is_ascii_digit()) && !declared.contains(t) {
+                return Some(t.to_string());
+            }
+        }
+    }
+    None
 }
